@@ -646,6 +646,113 @@ func probeScenarios() []Scenario {
 		}
 		out = append(out, Scenario{Name: "config-probe reconfigure a batch node between runs", Bound: 0, Body: body, Check: stdCheck(func() string { return label })})
 	}
+	// (2c) retry settings are what they were LAST set to, whenever that was: after an earlier run of
+	// the same node that was ordinary / had no items / failed in prep, or from inside the prep
+	// callback of the very run (a node that tunes itself from what it finds in the store)
+	for _, batch := range []bool{false, true} {
+		batch := batch
+		var label string
+		body := func() {
+			r1, r2 := retryVals[core.Choose(2)], retryVals[core.Choose(2)]
+			w2 := waitVals[core.Choose(2)]
+			firstKinds := []string{"no earlier run", "an ordinary run", "a run whose prep failed"}
+			if batch {
+				firstKinds = append(firstKinds, "a run without items")
+			}
+			first := firstKinds[core.Choose(len(firstKinds))]
+			inPrep := core.Choose(2) == 1
+			label = fmt.Sprintf("batch=%v retries %d->%d wait->%v after %s, set inside prep=%v", batch, r1, r2, w2, first, inPrep)
+			var starts, ends []int64
+			fail := errors.New("always")
+			mode := "" // what the callbacks of the current run do
+			var reconf func()
+			exec := func(context.Context, flyt.Result) (flyt.Result, error) {
+				if mode == "ordinary" {
+					return flyt.NewResult(1), nil
+				}
+				starts = append(starts, core.VNow())
+				ends = append(ends, core.VNow())
+				return flyt.Result{}, fail
+			}
+			prepErr := errors.New("prep fails in the earlier run")
+			var run func() error
+			var getN func() int
+			var getW func() time.Duration
+			if batch {
+				b := flyt.NewBatchNode().WithMaxRetries(r1)
+				b = b.WithExecFunc(exec).WithPrepFunc(func(context.Context, *flyt.SharedStore) ([]flyt.Result, error) {
+					switch mode {
+					case "prepfail":
+						return nil, prepErr
+					case "empty":
+						return []flyt.Result{}, nil
+					}
+					if mode == "probe" && inPrep {
+						reconf()
+					}
+					return []flyt.Result{flyt.NewResult(1)}, nil
+				})
+				reconf = func() { b.WithMaxRetries(r2).WithWait(w2) }
+				run = func() error { _, err := flyt.Run(context.Background(), b, flyt.NewSharedStore()); return err }
+				getN, getW = b.GetMaxRetries, b.GetWait
+			} else {
+				b := flyt.NewNode().WithMaxRetries(r1)
+				b = b.WithExecFunc(exec).WithPrepFunc(func(context.Context, *flyt.SharedStore) (flyt.Result, error) {
+					if mode == "prepfail" {
+						return flyt.Result{}, prepErr
+					}
+					if mode == "probe" && inPrep {
+						reconf()
+					}
+					return flyt.NewResult(1), nil
+				})
+				reconf = func() { b.WithMaxRetries(r2).WithWait(w2) }
+				run = func() error { _, err := flyt.Run(context.Background(), b, flyt.NewSharedStore()); return err }
+				getN, getW = b.GetMaxRetries, b.GetWait
+			}
+			switch first {
+			case "an ordinary run":
+				mode = "ordinary"
+				if err := run(); err != nil {
+					core.Problem("earlier ordinary run failed: %v", err)
+				}
+			case "a run whose prep failed":
+				mode = "prepfail"
+				if err := run(); err == nil || !errors.Is(err, prepErr) {
+					core.Problem("earlier run with a failing prep returned %v", err)
+				}
+			case "a run without items":
+				mode = "empty"
+				if err := run(); err != nil {
+					core.Problem("earlier run without items failed: %v", err)
+				}
+			}
+			if !inPrep {
+				reconf()
+			}
+			mode = "probe"
+			starts, ends = nil, nil
+			err := run()
+			if batch && err != nil {
+				core.Problem("batch probe run failed: %v", err)
+			}
+			if !batch && (err == nil || !errors.Is(err, fail)) {
+				core.Problem("probe run returned %v", err)
+			}
+			if getN() != r2 || getW() != w2 {
+				core.Problem("getters report retries=%d wait=%v, last set to %d / %v (%s)", getN(), getW(), r2, w2, label)
+			}
+			if len(starts) != r2 {
+				core.Problem("always-failing exec attempted %d times, budget last set to %d (%s)", len(starts), r2, label)
+			}
+			for k := 1; k < len(starts); k++ {
+				if gap := time.Duration(starts[k] - ends[k-1]); gap != w2 {
+					core.Problem("virtual time between attempts %d and %d is %v, wait last set to %v (%s)", k-1, k, gap, w2, label)
+				}
+			}
+		}
+		out = append(out, Scenario{Name: fmt.Sprintf("config-probe retry settings re-set after earlier runs / inside prep batch=%v", batch), Bound: 0, Body: body, Check: stdCheck(func() string { return label })})
+	}
 	// (3) pool size <= 0 means one worker
 	{
 		var label string
